@@ -832,7 +832,7 @@ func (m *Module) OnEndBlock(w *engine.World, ph *engine.Phase) {
 
 func (m *Module) OnCommit(w *engine.World) {
 	h := w.Height
-	if h < 2 {
+	if h < w.Base()+2 {
 		return // the genesis block: the bank mirror and the genesis pool's model are installed after it
 	}
 	ctx := w.Node.Ctx()
